@@ -194,7 +194,8 @@ PlTag(F, c) == CASE Tag(F, c) = 2 -> <<2, Rem(F, c)>>
 ToPl(F) ==
   [cs |-> F.hd[1], ds |-> F.hd[2], scheme |-> SchemeOf(F), family |-> FamilyOf(F), face |-> FaceOf(F),
    sbs |-> SbsOf(F),
-   extra |-> IF "HeaderWordsBeyond255Dropped" \in Deviations THEN SubSeq(ExtraOf(F), 1, MaxHeader - 17) ELSE ExtraOf(F),
+   extra |-> IF "HeaderWordsBeyond255Dropped" \in Deviations /\ Len(ExtraOf(F)) > MaxHeader - 17
+             THEN SubSeq(ExtraOf(F), 1, MaxHeader - 17) ELSE ExtraOf(F),
    par |-> F.p, rbc |-> Rbc(F), lig |-> LigItems(F), haslig |-> NL(F) > 0,
    chr |-> [c \in Existing(F) |-> [wd |-> Wd(F, c), ht |-> Ht(F, c), dp |-> Dp(F, c), ic |-> Ic(F, c),
                                    tag |-> PlTag(F, c)]]]
@@ -271,11 +272,12 @@ SortUp(S) == SetToSortSeq(S, <)
 Rank(S, v) == 1 + Cardinality({u \in S : u < v})
 DimTable(S) ==
   CASE Bug = "ZeroNotFirst" -> SortUp(S \cup {0})
-    [] Bug = "NoDedupe"     -> <<0>> \o SortUp(S) \o SortUp(S)
     [] OTHER                -> <<0>> \o SortUp(S)
-DimIndex(S, v, zeroIsNone) ==
+\* vals: the value of every character (a function), for the seeded defect only
+DimIndex(S, vals, v, zeroIsNone) ==
   IF zeroIsNone /\ v = 0 THEN 0
-  ELSE IF Bug = "DedupeUnstableIndex" THEN Cardinality({u \in S : u <= v})   \* seeded: index before zero was put first
+  ELSE IF Bug = "DedupeUnstableIndex"       \* seeded: the index the value had before repetitions were removed
+       THEN 1 + Cardinality({c \in DOMAIN vals : vals[c] < v /\ ~(zeroIsNone /\ vals[c] = 0)})
   ELSE Rank(S, v)
 
 -----------------------------------------------------------------------------
@@ -306,8 +308,9 @@ FromPl(P) ==
       ciw(c) ==
         IF c \in ex
         THEN LET r == P.chr[c]   t == tagw(c) IN
-             <<DimIndex(WS, r.wd, FALSE), 16 * DimIndex(HS, r.ht, TRUE) + DimIndex(DS, r.dp, TRUE),
-               4 * DimIndex(IS, r.ic, TRUE) + t[1], t[2]>>
+             <<DimIndex(WS, [x \in ex |-> P.chr[x].wd], r.wd, FALSE),
+               16 * DimIndex(HS, [x \in ex |-> P.chr[x].ht], r.ht, TRUE) + DimIndex(DS, [x \in ex |-> P.chr[x].dp], r.dp, TRUE),
+               4 * DimIndex(IS, [x \in ex |-> P.chr[x].ic], r.ic, TRUE) + t[1], t[2]>>
         ELSE LET t == tagw(c) IN <<0, 0, t[1], t[2]>>
       \* PLtoTF 110-112 on the parsed file = on the font that is written
       hd0   == <<P.cs, P.ds>> \o EncStr(StrDefault(P.scheme), 10) \o EncStr(StrDefault(P.family), 5)
@@ -332,11 +335,12 @@ IdxOk(F) ==
                             /\ DIdx(F, c) < Len(F.d) /\ IIdx(F, c) < Len(F.i)
 
 TagsOk(F) ==
-  \A c \in Existing(F) :
+  \* validate.rs looks at every recipe of the table, used or not (TFtoPL 87 at the used ones)
+  /\ \A j \in 1 .. Len(F.e) : \A y \in ExtChars(F.e[j]) : Exists(F, y)
+  /\ \A c \in Existing(F) :
     /\ Tag(F, c) = 1 => /\ Rem(F, c) < NL(F) /\ Ep(F, c) < NL(F)
     /\ Tag(F, c) = 2 => Exists(F, Rem(F, c))
-    /\ Tag(F, c) = 3 => /\ Rem(F, c) < Len(F.e)
-                        /\ \A y \in ExtChars(AtE(F.e, Rem(F, c))) : Exists(F, y)
+    /\ Tag(F, c) = 3 => Rem(F, c) < Len(F.e)
 
 \* next-larger chains end (TFtoPL 84)
 RECURSIVE ListEnds(_, _, _)
@@ -346,6 +350,11 @@ ListsOk(F) == \A c \in Existing(F) : ListEnds(F, c, Cardinality(Existing(F)))
 
 OrphanTags(F) == {c \in Chars(F) : WIdx(F, c) = 0 /\ Tag(F, c) # 0}
 
+PassThrough(F) ==
+  (IF NL(F) > 0 /\ Ins(F, 0)[1] = 255 THEN {0} ELSE {})
+  \cup (IF NL(F) > 0 /\ Ins(F, NL(F) - 1)[1] = 255 THEN {NL(F) - 1} ELSE {})
+  \cup {Rem(F, c) : c \in {x \in Chars(F) : Tag(F, x) = 1 /\ Rem(F, x) < NL(F) /\ IsStop(F, Rem(F, x))
+                                          /\ Target(F, Rem(F, x)) < NL(F)}}
 LigOk(F) ==
   LET R == Reach(F) IN
   /\ Lbe(F) < NL(F)
@@ -356,7 +365,9 @@ LigOk(F) ==
             /\ (Exists(F, w[2]) \/ w[2] = Rbc(F))                                      \* TFtoPL 76, 77
             /\ IF w[3] >= 128 THEN 256 * (w[3] - 128) + w[4] < Len(F.k)
                ELSE w[3] \in LK!ValidOps /\ Exists(F, w[4])
-       /\ (w[1] > 128 /\ i \in R) => Target(F, i) < NL(F)                              \* TFtoPL 74
+       \* TFtoPL 74 looks at every stop word it prints (accessible or in a comment), not at the
+       \* pass-through ones (TFtoPL 69: boundary carrier, boundary pointer, words entered by a character)
+       /\ w[1] > 128 => (Target(F, i) < NL(F) \/ (i \notin R /\ i \in PassThrough(F)))
 \* every accessible instruction is a real step: an unconditional stop (skip_byte > 128) inside a
 \* chain has no counterpart in a property list
 NoStopInChain(F) == \A i \in Reach(F) : ~IsStop(F, i)
@@ -413,7 +424,8 @@ PairSame(PF, PG, l, r) ==
 LigSame(F, G, pairs) ==
   LET PF == Prog(F)   PG == Prog(G) IN
   /\ Rbc(F) = Rbc(G)
-  /\ \A pr \in pairs : PairSame(PF, PG, pr[1], pr[2])
+  \* TeX only ever looks up a left character that exists (or the left boundary)
+  /\ \A pr \in {x \in pairs : x[1] = NonChar \/ Exists(F, x[1])} : PairSame(PF, PG, pr[1], pr[2])
 
 Same(F, G, pairs) == /\ HeaderSame(F, G) /\ F.p = G.p /\ CharsSame(F, G) /\ LigSame(F, G, pairs)
 
